@@ -456,7 +456,10 @@ func RunC07(tier string) int {
 	}
 	var units []interface{}
 	for _, rt := range c07Rates {
-		for _, sz := range c07Sizes {
+		for si, sz := range c07Sizes {
+			if tier != "thorough" && si == 1 {
+				continue // quick: the smallest and the largest vault size
+			}
 			for i := range c07Ops() {
 				units = append(units, c07Unit{Rate: rt, Size: sz, First: i, Depth: depth})
 			}
